@@ -476,7 +476,7 @@ class TermAlg:
         r = self.eval(e.comparators[0], env)
         op = e.ops[0]
         if isinstance(op, (ast.In, ast.NotIn)):
-            if isinstance(r, ListV):
+            if isinstance(r, (ListV, TupV)):
                 res = any(self.same(l, x) for x in r.items)
             elif isinstance(r, DictV):
                 res = l in r.d
